@@ -57,9 +57,13 @@ theorem tie_cache :
       ["c.lock.Lock()", "c.data[key] = value", "c.lruCache.add(key)", "c.lock.Unlock()",
        "expiry := c.unstableExpiry.AroundDuration(expire)", "c.timingWheel.SetTimer(key, value, expiry)"]
     ∧ cacheSetStmts = ["c.SetWithExpire(key, value, c.expire)"]
-    ∧ cacheDelStmts =
-      ["c.lock.Lock()", "delete(c.data, key)", "c.lruCache.remove(key)", "c.lock.Unlock()",
-       "c.timingWheel.RemoveTimer(key)"]
+    ∧ (cacheDelStmts =
+        ["c.lock.Lock()", "delete(c.data, key)", "c.lruCache.remove(key)", "c.lock.Unlock()",
+         "c.timingWheel.RemoveTimer(key)"]
+       -- or with fixes/C12-cache-del-removes-timer-under-lock.patch (the same requests, issued before the unlock)
+       ∨ cacheDelStmts =
+        ["c.lock.Lock()", "delete(c.data, key)", "c.lruCache.remove(key)", "c.timingWheel.RemoveTimer(key)",
+         "c.lock.Unlock()"])
     ∧ cacheExpiryCallback = ["key, ok := k.(string)", "if !ok {", "return", "}", "cache.Del(key)"]
     ∧ cacheOnEvictStmts = ["delete(c.data, key)", "c.timingWheel.RemoveTimer(key)"] := by decide
 
